@@ -143,7 +143,12 @@ class ServiceAccessPoint(object):
 
     def dequeue(self, miu_size, icv_size):
         with self.llc.lock:
-            for socket in self.sock_list:
+            # A listening socket holds the CC for a connection it has
+            # accepted. It must go out before anything that is sent
+            # on the accepted socket, which is first in the list.
+            listening = [s for s in self.sock_list if s.state.LISTEN]
+            others = [s for s in self.sock_list if not s.state.LISTEN]
+            for socket in listening + others:
                 send_pdu = socket.dequeue(miu_size, icv_size)
                 if send_pdu:
                     return send_pdu
